@@ -1,0 +1,12 @@
+//go:build verif
+
+package fr
+
+// Contracts for the goblvc verifier (see /verif/DESIGN.md). Comments only.
+//
+// C13 (France): the two-digit key in front of a nine-digit SIREN is (12 + 3 * (SIREN mod 97))
+// mod 97, which is what (SIREN * 100 + 12) mod 97 computes; it is printed with two digits.
+//@ func calculateVATCheckDigit(str) (r)
+//@   requires len(str) == 9 && s_isdigits(str)
+//@   ensures [key] len(r) == 2 && (s_byte(r, 0) - 48) * 10 + (s_byte(r, 1) - 48) == (12 + 3 * (dval(str, 9) % 97)) % 97
+//@   ensures [digits] s_byte(r, 0) >= 48 && s_byte(r, 0) <= 57 && s_byte(r, 1) >= 48 && s_byte(r, 1) <= 57
